@@ -3,6 +3,7 @@ package checks
 import (
 	"bytes"
 	"fmt"
+	"regexp"
 
 	"github.com/github/git-sizer/sizes"
 
@@ -63,6 +64,31 @@ func c10Scenarios(tier string) []c10Scenario {
 	}
 	return out
 }
+
+// isPanicTrace: stderr carries a Go panic or fatal-error trace.
+func isPanicTrace(stderr []byte) bool {
+	return bytes.Contains(stderr, []byte("panic:")) || bytes.Contains(stderr, []byte("fatal error:")) || bytes.Contains(stderr, []byte("\ngoroutine "))
+}
+
+// hasErrorMessage: stderr tells the user that something went wrong -- some
+// text other than progress output, and not a crash trace. (The wording is the
+// program's business: the statement asks for "an error message".)
+func hasErrorMessage(stderr []byte) bool {
+	if isPanicTrace(stderr) {
+		return false
+	}
+	for _, line := range bytes.Split(stderr, []byte("\n")) {
+		if i := bytes.LastIndexByte(line, '\r'); i >= 0 {
+			line = line[i+1:] // progress frames end in CR
+		}
+		if len(bytes.TrimSpace(line)) > 0 && !c10ProgressLine.Match(line) {
+			return true
+		}
+	}
+	return false
+}
+
+var c10ProgressLine = regexp.MustCompile(`^[A-Z][A-Za-z ]+: +[0-9]+\b.*$`)
 
 type c10Fault struct {
 	f    modelgit.Fault
@@ -216,11 +242,11 @@ func c10Worker(sh *explore.Shard) {
 				if len(res.Stdout) != 0 {
 					mk("partial-report", fmt.Sprintf("non-zero exit %d but %d bytes were written to stdout", res.Exit, len(res.Stdout)))
 				}
-				if !bytes.Contains(res.Stderr, []byte("error:")) {
-					if res.Exit == 2 && bytes.Contains(res.Stderr, []byte("panic:")) {
+				if !hasErrorMessage(res.Stderr) {
+					if isPanicTrace(res.Stderr) {
 						mk("panic", "the run panicked: "+tailBytes(res.Stderr, 300))
 					} else {
-						mk("no-error-message", fmt.Sprintf("exit %d without an 'error:' line on stderr: %q", res.Exit, tailBytes(res.Stderr, 200)))
+						mk("no-error-message", fmt.Sprintf("exit %d without an error message on stderr: %q", res.Exit, tailBytes(res.Stderr, 200)))
 					}
 				}
 				sh.C.Outcome(fmt.Sprintf("exit%d-clean-error", res.Exit))
@@ -304,7 +330,7 @@ func c10Extras(sh *explore.Shard, idx *int64, dir string, si int, sc c10Scenario
 					sh.C.Evals++
 					sh.C.Nontrivial++
 					sh.C.Add("fault_pair_runs", 1)
-					if res.TimedOut || res.Exit == 0 || len(res.Stdout) != 0 || !bytes.Contains(res.Stderr, []byte("error:")) {
+					if res.TimedOut || res.Exit == 0 || len(res.Stdout) != 0 || !hasErrorMessage(res.Stderr) {
 						sh.C.Violate(explore.Violation{Property: "C10", Class: "fault-pair", Msg: fmt.Sprintf("two faults (%s after %d bytes, %s after %d bytes): hang=%v exit=%d stdout=%d bytes stderr=%q [%s]", fa.Kind, ka, fb.Kind, kb, res.TimedOut, res.Exit, len(res.Stdout), tailBytes(res.Stderr, 200), sc.name),
 							Case: caseJSON(sh.Index(), map[string]any{"scenario": sc.name, "faults": []modelgit.Fault{fa, fb}})})
 					}
@@ -389,7 +415,7 @@ func c10RealGit(sh *explore.Shard, idx *int64, dir string) {
 				class = "hang"
 			}
 			sh.C.Violate(explore.Violation{Property: "C10", Class: class,
-				Msg:  fmt.Sprintf("%s: expected a clean error (non-zero exit, 'error:' on stderr, empty stdout); got exit %d, %d bytes of stdout, stderr %q [args %v]", what, res.Exit, len(res.Stdout), tailBytes(res.Stderr, 300), args),
+				Msg:  fmt.Sprintf("%s: expected a clean error (non-zero exit, an error message on stderr, empty stdout); got exit %d, %d bytes of stdout, stderr %q [args %v]", what, res.Exit, len(res.Stdout), tailBytes(res.Stderr, 300), args),
 				Case: caseJSON(sh.Index(), map[string]any{"what": what, "args": args})})
 		}
 		sh.C.Outcome("clean-error")
@@ -454,6 +480,6 @@ func c10RealGit(sh *explore.Shard, idx *int64, dir string) {
 
 func init() {
 	Registry["C10"] = &Check{Level: "fault_enumeration", Worker: c10Worker, QuickBudget: 100 * time.Second, ThoroughBudget: 20 * time.Minute,
-		Rule:        "the real binary with the fault-injecting model git first on PATH, 6 scenarios (root kinds x table/JSON v1 with ROOT/JSON v2 with refgroup; merge history verbose and with progress; 3000 references): the fault-free run is recorded, then EVERY single fault of the model is injected in turn: for every git invocation of the run (identified as kind, n-th) exit status 1/128/SIGKILL after its complete output, death after k bytes of stdout for every record boundary and +-1 byte, first, middle and last byte (quick) or every k (thorough), and death after reading j stdin lines for every j. Oracle: exit 0 implies stdout byte-identical to the fault-free report; a fired fault implies non-zero exit, empty stdout, an 'error:' line and termination within 60 s; `config --get` exiting 1 is git's 'unset' answer and must not be an error. Every single-split chunking (record boundaries +-1 byte) of every output stream with per-record flushing and no fault must give the fault-free report; thorough adds every pair of simultaneous faults among the scanning pipelines' invocations at record granularity (first two scenarios). In-process (widening the scenario set): every 41st (7th) repository of the mixed family x every invocation x EVERY byte position x exit 1/SIGKILL must return an error and never panic. With real git: every reachable object removed in turn, 14 invalid option/ROOT vectors, 6 invalid configurations, shallow and absent repository must give a clean error. non-trivial = every injected fault",
+		Rule:        "the real binary with the fault-injecting model git first on PATH, 6 scenarios (root kinds x table/JSON v1 with ROOT/JSON v2 with refgroup; merge history verbose and with progress; 3000 references): the fault-free run is recorded, then EVERY single fault of the model is injected in turn: for every git invocation of the run (identified as kind, n-th) exit status 1/128/SIGKILL after its complete output, death after k bytes of stdout for every record boundary and +-1 byte, first, middle and last byte (quick) or every k (thorough), and death after reading j stdin lines for every j. Oracle: exit 0 implies stdout byte-identical to the fault-free report; a fired fault implies non-zero exit, empty stdout, an error message (not a crash trace) on stderr and termination within 60 s; `config --get` exiting 1 is git's 'unset' answer and must not be an error. Every single-split chunking (record boundaries +-1 byte) of every output stream with per-record flushing and no fault must give the fault-free report; thorough adds every pair of simultaneous faults among the scanning pipelines' invocations at record granularity (first two scenarios). In-process (widening the scenario set): every 41st (7th) repository of the mixed family x every invocation x EVERY byte position x exit 1/SIGKILL must return an error and never panic. With real git: every reachable object removed in turn, 14 invalid option/ROOT vectors, 6 invalid configurations, shallow and absent repository must give a clean error. non-trivial = every injected fault",
 		Assumptions: []string{"single faults in quick; pairs only among rev-list / cat-file invocations at record granularity in thorough", "the model git's death is an exit status or a signal after a prefix of its correct output"}}
 }
